@@ -278,6 +278,12 @@ class ListProg:
         return self
 
 
+def all_continue(res):
+    """harness `vm` result field: one outcome per interpret call, every one must be C (no value, no error)"""
+    res = res.strip()
+    return res.startswith("R:") and all(x.strip() == "C" for x in res[2:].split(";;"))
+
+
 def run_source_level(chk, binary, nprog):
     progs = [ListProg(chk.rng).build(chk.rng.randrange(4, 14)) for _ in range(nprog)]
     progs = [p for p in progs if p.stmts]      # a program may come out empty (every draw hit tail of [])
@@ -293,7 +299,7 @@ def run_source_level(chk, binary, nprog):
         head = o.split(" ## D:")[0]
         res, _, printed = head.partition(" ## O:")
         got = printed.split("\u241e") if printed else []
-        if res.strip() not in ("R:C",) or got != p.expected:
+        if not all_continue(res) or got != p.expected:
             bad.append((p, res.strip(), got))
     return progs, bad
 
@@ -414,7 +420,7 @@ def run(chk):
             o = common.run_harness(binary, "vm", ["use core::lists ;;; " + " ;; ".join(stmts)], shards=1)[0]
             head = o.split(" ## D:")[0]
             r_, _, pr = head.partition(" ## O:")
-            return r_.strip() != "R:C" or (pr.split("\u241e") if pr else []) != exp
+            return (not all_continue(r_)) or (pr.split("\u241e") if pr else []) != exp
         small = common.shrink_list(p.stmts, sfails) if sfails(p.stmts) else p.stmts
         chk.violation({
             "kind": "a Numbat program over shared list values prints something else than immutable sequences would",
